@@ -21,67 +21,67 @@ def claim(pid, text, note, technique):
 
 
 claim("C05",
-      "Structural decision of C05 on the current source: every temporary write of the dispatcher state (batching flag, trigger flag, event/watcher queues, syncing set, constant flags in edit_constant, Event mode in update) is restored -- to the saved value where one was saved -- on every exit including every exceptional one, and the outermost flush is passed on every exit of a flushing scope (rules R05.a-d).",
+      "Structural decision of C05 on the current source: every temporary write of the dispatcher state (batching flag, trigger flag, event/watcher queues, syncing set, constant flags in edit_constant, Event mode in update) is restored -- to the saved value where one was saved -- on every exit including every exceptional one, and the outermost flush is passed on every exit of a flushing scope (R05.a-d); restore loops restore in every iteration (R05.e); context managers write saved state back on every exit after the yield (R05.f); an Event is reset even when its watcher raises (R05.g); a failing flush must leave no events behind (R05.h -- violated on the pinned tree, recorded as a known finding).",
       "Decides the restore/flush structure for every fault position at once (exceptional edges from every may-raise node); does not decide behavioural equivalence with a fresh object. Trusted: CPython ast, the may-raise model and alias table of DESIGN.md §2.3/2.4; finally blocks are summarised as atomic (loop-carried partial restores inside a finally are not decided).",
       "static analysis: CFG with exceptional edges, write-role (save/ORIG/TEMP) classification, reachability and dominance over the CFG")
 claim("C01",
-      "Structural decision of seven necessary conditions of C01: validate dominates every value store on the same binding (R01.a); the value store has exactly three writers (R01.b); every validating type's constructor chain validates the default after the slots its validators read are set (R01.c); no constructor drops a constraint argument (R01.d); every constraint slot is read by a validator reachable from _validate (R01.e); the bounds validators of Number/Integer/Magnitude/Date/CalendarDate/Range/DateRange/CalendarDateRange/List/HookList equal an oracle written from the property on the complete ordering domain incl. NaN, exhaustively (R01.f, ~4800 abstract cases); tuple-family type-check agreement (R01.g); None accepted iff allow_None and other values iff well typed for 15 types, type predicates as abstract inputs (R01.h, 90 cases).",
+      "Structural decision of seven necessary conditions of C01: validate dominates every value store on the same binding (R01.a); the value store has exactly three writers (R01.b); every validating type's constructor chain validates the default after the slots its validators read are set (R01.c); no constructor drops a constraint argument (R01.d); every constraint slot is read by a validator reachable from _validate (R01.e); the bounds validators of Number/Integer/Magnitude/Date/CalendarDate/Range/DateRange/CalendarDateRange/List/HookList equal an oracle written from the property on the complete ordering domain incl. NaN, exhaustively (R01.f, ~4800 abstract cases); tuple-family type-check agreement (R01.g); None accepted iff allow_None, other values iff well typed, callables only where the type is dynamic/callable, for 15 types with type predicates as abstract inputs (R01.h, 120 cases).",
       "Does not decide the accept-iff-spec equivalence for value *types*, regexes or membership (re.match/isinstance/in are trusted and only checked to be consulted). R01.f assumes well-typed bounds with LO<HI, order-preserving _to_datetime, and treats non-bounds validators as passing.",
       "static analysis: dominance/def-use on the setter CFG, who-may-write table, linearised constructor event sequences over the static MRO, self-call closure reads, finite-domain abstract interpretation vs. an independent oracle")
 claim("C02",
-      "Structural decision of C02's ordering clause: in Parameter.__set__ no observable effect (value store, link install/drop, async-task cancel, dependency rebinding, watcher dispatch; directly or through a callee summary) can precede a point where the setter may still reject (explicit raise, _validate, set_hook); __set__ overrides act only after super().__set__; update checks the key before its setattr.",
+      "Structural decision of C02's ordering clause: in Parameter.__set__ no observable effect (value store, link install/drop, async-task cancel, dependency rebinding, watcher dispatch; directly or through a callee summary) can precede a point where the setter may still reject (explicit raise, _validate, set_hook); __set__ overrides act only after super().__set__; update checks the key before its setattr; no validator reachable from any type's _validate notifies watchers (R02.c).",
       "Does not decide that callees are effect-free before their own raises, nor equality of the complete observable state (needs execution). Effects are recognised by the access-path/callee tables of engine/effects.py.",
       "static analysis: effect recognisers + transitive callee effect summaries, CFG reachability from effect nodes to rejection points")
 claim("C08",
-      "Structural decision of two clauses of C08: refs and ref_watchers are co-updated by every writer (every removal/replacement of a refs entry is paired with a rebuild of the source watchers; a rebuild first unwatches and resets) and every link-dependency/value computation in class Parameters honours <parameter>.nested_refs; the sync's own writes run inside the syncing scope, and that scope removes its marker on every exit.",
+      "Structural decision of two clauses of C08: refs and ref_watchers are co-updated by every writer (every removal/replacement of a refs entry is paired with a rebuild of the source watchers; a rebuild first unwatches and resets) and every link-dependency/value computation in class Parameters honours <parameter>.nested_refs; the sync's own writes run inside the syncing scope, and that scope removes its marker on every exit; every assigned reference is (re)installed and every constructor reference recorded (R08.d); _sync_refs, interpreted abstractly, re-resolves exactly the links with a dependency matching a delivered event (R08.e).",
       "Does not decide that the parameter mirrors the reference after arbitrary source histories (needs execution).",
       "static analysis: parallel-store pairing via dominance/post-dominance on the CFG, callee summaries, def-use of the `recursive` argument, lexical scope check")
 claim("C09",
-      "Decides the clause 'every operator form Python can dispatch to the expression, including all reflected operators, is supported' (the operator table of class rx is complete for the data model's binary operators, every referenced operator/math function exists, reflected forms apply the forward function with reverse=True, each special method maps to the stdlib function the data model assigns to it, _eval_operation swaps operands iff reverse) and two necessary conditions of cache coherence: every internal parameter of an expression gets the invalidation watcher, unfiltered (R09.e), and every invalidation marks the node dirty and clears the stored error on every path (R09.f).",
+      "Decides the clause 'every operator form Python can dispatch to the expression, including all reflected operators, is supported' (the operator table of class rx is complete for the data model's binary operators, every referenced operator/math function exists, reflected forms apply the forward function with reverse=True, each special method maps to the stdlib function the data model assigns to it, _eval_operation swaps operands iff reverse) and two necessary conditions of cache coherence: every internal parameter of an expression gets the invalidation watcher, unfiltered (R09.e), every invalidation marks the node dirty and clears the stored error on every path, and the raw cache slot is read only by the resolver (R09.f); _apply_operator records the caller's reverse flag unchanged (R09.d).",
       "Cache coherence of .rx.value under read/update histories as a whole, the .rx helper namespace (where, pipe, ...) and rx.watch delivery are NOT decided; R09.e/f are necessary, not sufficient. The stdlib attribute sets of `operator`/`math` are read from the interpreter running the check.",
       "static analysis: table-agreement check of sibling special methods against the language-reference operator table")
 claim("C10",
-      "Structural decision of four obligations from which latest-wins follows for every completion order: no suspension point inside a `with _syncing(...)` body (R10.a); every cancel of an async_refs entry deregisters or re-registers before the next suspension (R10.b); in _async_ref every path to a suspension point owns async_refs[pname] (R10.d); in reactive.py writes of the cached value and of the ownership token after a suspension are guarded by `self._current_task is task` with the task registered before the first suspension (R10.c); taking over an entry cancels the previous owner unconditionally (R10.e); a synchronous rx result resets the token (R10.g); scheduling implies ownership (R10.f -- violated on the pinned tree, recorded as a known finding: a task is only registered when it starts running).",
+      "Structural decision of four obligations from which latest-wins follows for every completion order: no suspension point inside a `with _syncing(...)` body (R10.a); every cancel of an async_refs entry deregisters or re-registers before the next suspension (R10.b); in _async_ref every path to a suspension point owns async_refs[pname] (R10.d); in reactive.py writes of the cached value and of the ownership token after a suspension are guarded by `self._current_task is task` with the task registered before the first suspension (R10.c); taking over an entry cancels the previous owner unconditionally (R10.e); a synchronous rx result resets the token (R10.g); scheduling implies ownership (R10.f -- violated on the pinned tree, recorded as a known finding: a task is only registered when it starts running); an asynchronous reference is scheduled unconditionally (R10.h) and every constructor reference is recorded (R10.i).",
       "Trusted: asyncio's cancellation semantics (Task.cancel() raises at the await). The final value under each schedule is not executed; each violated obligation yields a concrete bad schedule.",
       "static analysis: suspension-point tagging on the CFG, reachability between cancel/registration/suspension nodes, must-conditions from dominating branches")
 claim("C13",
-      "Structural decision of C13: every installation of a Parameter into a class namespace (3 type.__setattr__ sites) is followed on every path, incl. exceptional ones and before anything that may raise, by an invalidation of the `.param` cache of the class and all its subclasses; the cache has a single reader; every namespace consumer goes through it; the memo is computed by walking the class's own MRO over __dict__s, never from other classes' memos (R13.d).",
+      "Structural decision of C13: every installation of a Parameter into a class namespace (3 type.__setattr__ sites) is followed on every path, incl. exceptional ones and before anything that may raise, by an invalidation of the `.param` cache of the class and all its subclasses; the cache has a single reader; every namespace consumer goes through it; the memo is computed by walking the class's own MRO over __dict__s, never from other classes' memos (R13.d); on the copy-on-write branch the copy is installed before its __set__ dispatches (R13.e); the memo is never mutated in place (R13.f).",
       "Identity/equality of .param[name] with the governing descriptor after arbitrary histories follows from these obligations but is not executed.",
       "static analysis: must-pass-through (post-dominance incl. exceptional edges) from each write to an invalidation with an all-subclasses summary; who-may-read table")
 claim("C18",
-      "Structural decision of C18 per mutator: write-through pairing of the proxy list and _objects with identical arguments in every listed mutator; pop returns the removed object on every path; prune-polarity agreement between pop and remove; every store mutation inside exactly one notification scope with trigger=False on delegated calls; readers (get_range, membership, objects getter/setter) use the current stores; _objects grows outside the proxy only in _ensure_value_is_in_objects (R18.f; its missing names pairing on dict-declared Selectors is a recorded known finding); iterable arguments that feed both stores are materialised first (R18.g); names are pruned by identity with the stored element (R18.c).",
+      "Structural decision of C18 per mutator: write-through pairing of the proxy list and _objects with identical arguments in every listed mutator; pop returns the removed object on every path; prune-polarity agreement between pop and remove; every store mutation inside exactly one notification scope with trigger=False on delegated calls; readers (get_range, membership, objects getter/setter) use the current stores; _objects grows outside the proxy only in _ensure_value_is_in_objects (R18.f; its missing names pairing on dict-declared Selectors is a recorded known finding); iterable arguments that feed both stores are materialised first (R18.g); names are pruned by identity with the stored element (R18.c); non-removing mutators never remove from names, so keys keep their position (R18.h).",
       "Consistency after arbitrary mutation sequences follows from the per-mutator obligations but is not executed; list mutators that ListProxy does not override are reported as informational.",
       "static analysis: sibling/parallel-store cross-check per basic block, return discipline on the CFG, lexical scope rules")
 claim("C03",
-      "Structural decision of necessary conditions of C03: the value store precedes every dispatch on every path and the event's old/new are the overwritten/installed bindings (R03.a); both value-dispatch loops iterate sorted(..., key=precedence) (R03.b); the Comparator tables map numbers/str/None/dates to operator.eq, recurse into containers and return literal False on every fall-through (R03.c); the event-type table (R03.d, 4 cases) and the dispatch decision of _call_watcher (R03.f, 32 cases) equal the specification exhaustively; register/lookup/unwatch use the same table paths (R03.e).",
+      "Structural decision of necessary conditions of C03: the value store precedes every dispatch on every path and the event's old/new are the overwritten/installed bindings (R03.a); both value-dispatch loops iterate sorted(..., key=precedence) (R03.b); the Comparator tables map numbers/str/None/dates to operator.eq, recurse into containers and return literal False on every fall-through (R03.c); the event-type table (R03.d, 4 cases) and the dispatch decision of _call_watcher (R03.f, 32 cases) equal the specification exhaustively; register/lookup/unwatch use the same table paths (R03.e); the flush drains until empty (R03.g) and, interpreted abstractly on 218 small queue configurations, runs every queued watcher once in (precedence, queue position) order with the last event per watched parameter (R03.h).",
       "Exactly-once delivery counts, depth-first cascades and queued semantics over all programs are NOT decided (they need an executable reference semantics).",
       "static analysis: dominance/def-use on the setter CFG, table checks on class literals, finite-domain abstract interpretation of _update_event_type and _call_watcher vs. an independent specification")
 claim("C04",
-      "Structural decision of necessary conditions of C04: nothing executes on the batching arm of _call_watcher (16 abstract cases incl. queued watchers); every flush call outside the flush is controlled by `not <saved/live batching flag>` (5 sites); queued watchers are de-duplicated by an identity test (an equality/membership test on the queue is reported), the flush maps (name, what) to the last event, empties both queues before running and loops until empty; discard_events restores copies taken before the body; update() captures values and links before applying and the restorer re-applies them; trigger re-submits current values.",
+      "Structural decision of necessary conditions of C04: nothing executes on the batching arm of _call_watcher (16 abstract cases incl. queued watchers); every flush call outside the flush is controlled by `not <saved/live batching flag>` (5 sites); queued watchers are de-duplicated by an identity test (an equality/membership test on the queue is reported), the flush maps (name, what) to the last event, empties both queues before running and loops until empty; discard_events restores copies taken before the body; update() captures the values of every given key and the links before applying and the restorer re-applies them; trigger re-submits current values; the flush is sorted on every path (R04.g), satisfies the abstract flush model (R04.h), and every writer that extends the watcher queue keeps it duplicate-free by identity (R04.i).",
       "Delivery counts and event contents under arbitrary nestings of batch/update/discard/trigger are not decided (need execution).",
       "static analysis: abstract interpretation of the dispatcher, control-dependence (dominating branch conditions), reaching definitions, dominance on CFGs")
 claim("C12",
-      "Structural decision of the ownership rules behind C12: the instance route never writes class storage (every self.default / _set_instantiate write is under `obj is None`); per-instance Parameter objects have one producer which stores a fresh copy (copy.copy, new watchers, re-copied mutable slots); the re-copy of mutable slots is not narrowed by any extra condition; every __set__ override is an @instance_descriptor and the wrapper delegates and returns; instantiate=True => per-instance deepcopy, every constant => reference (selection not narrowed); class-level assignment on a subclass copies the inherited Parameter first.",
+      "Structural decision of the ownership rules behind C12: the instance route never writes class storage (every self.default / _set_instantiate / setattr(self.owner, ...) write is under `obj is None`); per-instance Parameter objects have one producer which stores a fresh copy (copy.copy, new watchers, re-copied mutable slots); the re-copy of mutable slots is not narrowed by any extra condition; every __set__ override is an @instance_descriptor and the wrapper delegates and returns; instantiate=True => per-instance deepcopy, every constant => reference (selection not narrowed); class-level assignment on a subclass copies the inherited Parameter first.",
       "Order-dependent histories are not executed; the rules are the conditions that make the history irrelevant.",
       "static analysis: must-conditions from dominating branches, who-may-write tables, shape checks of the copy routine, decorator agreement across sibling overrides")
 claim("C14",
-      "Structural decision of C14: in Parameter.__set__ every value store is control-dependent on the constant/readonly test, none lies on a readonly path or on the constant arm for an initialized instance, the readonly raise is unconditional and the constant raise is skipped only for identity with the current value; edit_constant restores every cleared flag in a finally at class and instance level; `name` is declared constant; readonly forces constant; every constant parameter is referenced on the instance at construction (R14.d).",
+      "Structural decision of C14: in Parameter.__set__ every value store is control-dependent on the constant/readonly test, none lies on a readonly path or on the constant arm for an initialized instance, the readonly raise is unconditional and the constant raise is skipped only for identity with the current value; edit_constant restores every cleared flag in a finally at class and instance level; `name` is declared constant; readonly forces constant; every constant parameter is referenced on the instance at construction (R14.d); who-may-unlock table for edit_constant (R14.e); every normal return of the setter has passed the constant/readonly test (R14.f); the memo edit_constant holds is never mutated in place (R14.g); only edit_constant clears a constant flag (R14.h) and it restores the unlocked objects by identity (R14.i).",
       "Histories involving per-instance Parameter copies created earlier are not executed; as_uninitialized is deliberately not armed (DESIGN.md C05 exclusions).",
       "static analysis: control dependence on the setter CFG, exceptional-edge coverage of edit_constant (shared with C05), declaration checks")
 claim("C15",
-      "Decides writer/reader agreement of every codec pair: presence of both directions in the same class, equal strftime/strptime format multisets, list-out/tuple-back, None both ways, the DateRange width discriminator equals the width of the format it selects and the serialize side selects date-only exactly for plain dates, the object-level loops (same subset filter, every entry produced by p.serialize / param[name].deserialize with no bypass, plain json.dumps/json.loads), and that no reader of the value store conflates an explicit None with 'not set' (R15.g).",
+      "Decides writer/reader agreement of every codec pair: presence of both directions in the same class, equal strftime/strptime format multisets, list-out/tuple-back, None both ways, the DateRange width discriminator equals the width of the format it selects and the serialize side selects date-only exactly for plain dates, the object-level loops (same subset filter, every entry produced by p.serialize / param[name].deserialize with no bypass, plain json.dumps/json.loads), that no reader of the value store conflates an explicit None with 'not set' (R15.g), and that the base Parameter codec is the identity (R15.h).",
       "Value-level equality of the round trip (years < 1000, non-finite floats, int vs float) is not decided. Decorator agreement is deliberately not armed (DateRange.deserialize lacks @classmethod yet round-trips).",
       "static analysis: sibling cross-check of serialize/deserialize ASTs (format literals, container constructors, guards), width computation from format directives")
 claim("C16",
-      "Decides: schema dispatch is exhaustive for the 15 listed types and class-name-derived types are primitives; every emitted key is JSON-Schema vocabulary and every literal type a primitive; declare_numeric_bounds emits exactly the specified keywords on all 20 bound x inclusivity configurations and those keywords accept a value class iff the Number validator's specification does (100 cases, exhaustive); nullable wrapper iff allow_None; tuple length pins minItems = maxItems; schema and serialized state are computed from the same Parameter objects (R16.e).",
+      "Decides: schema dispatch is exhaustive for the 15 listed types and class-name-derived types are primitives; every emitted key is JSON-Schema vocabulary and every literal type a primitive; declare_numeric_bounds emits exactly the specified keywords on all 20 bound x inclusivity configurations and those keywords accept a value class iff the Number validator's specification does (100 cases, exhaustive); nullable wrapper iff allow_None; tuple length pins minItems = maxItems; schema and serialized state are computed from the same Parameter objects (R16.e); selector enums are the live objects (R16.f); whatever the Number validator accepts the emitted keywords accept, also for non-bool inclusivity flags (R16.g, 320 cases).",
       "That arbitrary serialized values validate against the schema needs a validator run and is not decided; Selector enum contents are run-time objects.",
       "static analysis: dispatch-table exhaustiveness, vocabulary check over dict literals and resolved subscript keys, finite-domain abstract interpretation of the schema builders vs. the C01 bounds oracle")
 claim("C17",
-      "Decides: the watcher-owner assumption of Parameterized.__setstate__ against every installer of method callers (R17.a), that no closure reaches an internally installed watcher (R17.b), slots/init/getstate/setstate agreement of the private namespaces and of Parameter (R17.c), the restore ordering of __setstate__ (R17.d), rebinding of bound-method callbacks only by identity of the owner and unregistering by value (R17.e), and that a copy does not inherit the original's open batch/trigger state (R17.f). Two genuine defects of the pinned tree are recorded as known findings (KNOWN_FINDINGS.txt): _watch_group registers a parent's method caller on a sub-object; the `callback` closure of _resolve_dynamic_deps is stored in watchers.",
+      "Decides: the watcher-owner assumption of Parameterized.__setstate__ against every installer of method callers (R17.a), that no closure reaches an internally installed watcher (R17.b), slots/init/getstate/setstate agreement of the private namespaces and of Parameter (R17.c), the restore ordering of __setstate__ (R17.d), rebinding of bound-method callbacks only by identity of the owner and unregistering by value (R17.e), that a copy does not inherit the original's open batch/trigger state (R17.f), that Parameter.__getstate__ returns the slot state unmodified (R17.c) and that get_all_slots covers the class and every base (R17.g, abstract interpretation). Two genuine defects of the pinned tree are recorded as known findings (KNOWN_FINDINGS.txt): _watch_group registers a parent's method caller on a sub-object; the `callback` closure of _resolve_dynamic_deps is stored in watchers.",
       "Value equality and independence of the copy (heap shape at run time) are not decided. User callables registered through the public watch API are out of scope.",
       "static analysis: reader/writer assumption cross-check via def-use, escape analysis of nested functions into the watcher set-up, all-paths assignment of slots on the CFG")
 claim("C19",
-      "Decides: every random generator reseeds (super().__call__()) before drawing, the reseed runs under time_dependent, the reseed happens on every path of _hash_and_seed (no memo), the seed's inputs are (name hash, time, global seed) only and the hash works on a copy of the digest (R19.a); inspection reaches no producer (R19.b); Dynamic._produce_value produces iff untimed or forced or the time changed and then writes value and time together, else returns the cache and writes nothing (36 abstract cases incl. backward time jumps, exhaustive; R19.c); Time enter/exit and _state_push/_state_pop move the same fields in the same order (R19.d).",
+      "Decides: every random generator reseeds (super().__call__()) before drawing, the reseed runs under time_dependent, the reseed happens on every path of _hash_and_seed (no memo), the seed's inputs are (name hash, time, global seed) only and the hash works on a copy of the digest (R19.a); inspection reaches no producer (R19.b); Dynamic._produce_value produces iff untimed or forced or the time changed and then writes value and time together, else returns the cache and writes nothing (72 abstract cases incl. backward time jumps and a raising generator, exhaustive; R19.c); Time enter/exit and _state_push/_state_pop move the same fields in the same order and visit every parameter's generator, class-held ones included (R19.d).",
       "Numeric equality of generated values (stdlib PRNG) is not decided.",
       "static analysis: dominance (reseed-before-draw), call-graph reachability, finite-domain abstract interpretation of the cache function, push/pop table agreement")
 
